@@ -414,7 +414,7 @@ func main() {
 		if c.Big {
 			r.Event("big-output-cases")
 			grow := res.HWMAfterKB - res.HWMBeforeKB
-			r.Extra[fmt.Sprintf("hwm_growth_kb_%d", ci)] = grow
+			r.SetExtra(fmt.Sprintf("hwm_growth_kb_%d", ci), grow)
 			if grow > 1024*1024 {
 				r.Violation(sig("unbounded-buffering"), fmt.Sprintf("%s: host peak RSS grew by %d MiB while the plugin emitted 2 GiB", c.ID, grow/1024), wit)
 			}
@@ -425,7 +425,7 @@ func main() {
 			if res.AfterCtxMS > maxAfterCtxMS {
 				r.Violation(sig("no-bounded-return"), fmt.Sprintf("%s: the call returned %d ms after its context had ended (bound %d ms)", c.ID, res.AfterCtxMS, maxAfterCtxMS), wit)
 			}
-			r.Extra["after_ctx_ms_"+c.Timing+"_"+c.Ctx] = res.AfterCtxMS
+			r.SetExtra("after_ctx_ms_"+c.Timing+"_"+c.Ctx, res.AfterCtxMS)
 		}
 	}
 	var small, big []int
